@@ -171,21 +171,47 @@ class _GhostProblem(FactsProblem):
             for (g, v) in self.ghosts[n.id]:
                 z.kill(g)
                 z.add_eq(g, v, 0)
-        if z is not None and n.kind == "test" and label in ("T", "F") and isinstance(n.ast, ast.Compare) and len(n.ast.ops) == 1 \
-                and isinstance(n.ast.left, ast.Name):
-            # x = S.find(sub, lo) ... `x == -1` / `x < 0` failed (or `x != -1` / `x >= 0` held): found, so x >= lo
-            x, op, rhs = n.ast.left.id, n.ast.ops[0], n.ast.comparators[0]
+        if z is not None and n.kind == "test" and label in ("T", "F") and n.ast is not None:
+            self._find_refine(z, state, n.ast, label == "T", 0)
+        return z
+
+    def _find_refine(self, z: Facts, state: Facts, e: ast.AST, truth: bool, depth: int) -> None:
+        """x = S.find(sub, lo) ... `x == -1` / `x < 0` failed (or `x != -1` / `x >= 0` held): found, so x >= lo.  The test may be
+        negated, a conjunct, or a boolean local whose definition is still valid (`found = x >= 0; if not found:`)."""
+        if depth > 4:
+            return
+        if isinstance(e, ast.UnaryOp) and isinstance(e.op, ast.Not):
+            self._find_refine(z, state, e.operand, not truth, depth + 1)
+            return
+        if isinstance(e, ast.BoolOp):
+            if (isinstance(e.op, ast.And) and truth) or (isinstance(e.op, ast.Or) and not truth):
+                for v in e.values:
+                    self._find_refine(z, state, v, truth, depth + 1)
+            return
+        if isinstance(e, ast.Name):
+            from ..facts import _DEFSEP
+            pre = e.id + _DEFSEP
+            for (t, pol) in list(state.preds):
+                if pol and t.startswith(pre):
+                    try:
+                        d = ast.parse(t[len(pre):], mode="eval").body
+                    except SyntaxError:
+                        continue
+                    if not (isinstance(d, ast.Name) and d.id == e.id):
+                        self._find_refine(z, state, d, truth, depth + 1)
+            return
+        if isinstance(e, ast.Compare) and len(e.ops) == 1 and isinstance(e.left, ast.Name):
+            x, op, rhs = e.left.id, e.ops[0], e.comparators[0]
             from ..syn import const_int
             cv = const_int(rhs)
-            found = (cv == -1 and ((isinstance(op, ast.Eq) and label == "F") or (isinstance(op, (ast.NotEq, ast.Gt)) and label == "T"))) or \
-                    (cv == 0 and ((isinstance(op, ast.Lt) and label == "F") or (isinstance(op, ast.GtE) and label == "T")))
+            found = (cv == -1 and ((isinstance(op, ast.Eq) and not truth) or (isinstance(op, (ast.NotEq, ast.Gt)) and truth))) or \
+                    (cv == 0 and ((isinstance(op, ast.Lt) and not truth) or (isinstance(op, ast.GtE) and truth)))
             if found:
                 pre = x + " :find: "
                 for (t, pol) in list(state.preds):
                     if pol and t.startswith(pre):
                         lo_t, lo_k = t[len(pre):].rsplit("|", 1)
                         z.add(lo_t, x, -int(lo_k))
-        return z
 
     def transfer_stmt(self, z: Facts, s: ast.AST) -> None:
         lows: list[tuple[str, int]] = []
